@@ -923,10 +923,76 @@ func EqualGuarded(a, b *Poly) bool {
 			}
 		}
 	}
-	if len(atoms) == 0 || len(atoms) > 4 {
+	// also split on the zero tests of the polynomials that occur inverted (a value multiplied by inv0(Q) is 0
+	// where Q is, whatever the other side's guard looks like)
+	for _, q := range []*Poly{a, b} {
+		for _, m := range q.mons {
+			for _, x := range m.vars {
+				if x.v.Kind != FDef || x.e.Cmp(big.NewInt(64)) <= 0 {
+					continue
+				}
+				if at := ISZ(x.v.Q).SinglePred(); at != nil && at.Kind == PISZ && !seen[at] {
+					seen[at] = true
+					atoms = append(atoms, at)
+				}
+			}
+		}
+	}
+	if len(atoms) == 0 || len(atoms) > 5 {
 		return false
 	}
+	// a zero test of a product is the disjunction of the zero tests of its factors (no zero divisors): cases that
+	// contradict this are infeasible
+	type rel struct {
+		prod    int
+		factors []int
+	}
+	var rels []rel
+	for i, at := range atoms {
+		_, monoI, qi := at.V.content()
+		if len(monoI) != 0 {
+			continue
+		}
+		n := len(atoms)
+		for sub := 1; sub < 1<<n; sub++ {
+			if sub>>i&1 == 1 {
+				continue
+			}
+			cnt := 0
+			prod := PolyInt(a.F, 1)
+			var fs []int
+			for j := 0; j < n; j++ {
+				if sub>>j&1 == 1 {
+					cnt++
+					fs = append(fs, j)
+					prod = prod.Mul(atoms[j].V)
+				}
+			}
+			if cnt < 2 {
+				continue
+			}
+			_, mono, pn := prod.content()
+			if len(mono) == 0 && pn.Equal(qi) {
+				rels = append(rels, rel{i, fs})
+			}
+		}
+	}
 	for mask := 0; mask < 1<<len(atoms); mask++ {
+		feasible := true
+		for _, rl := range rels {
+			or := false
+			for _, j := range rl.factors {
+				if mask>>j&1 == 1 {
+					or = true
+				}
+			}
+			if (mask>>rl.prod&1 == 1) != or {
+				feasible = false
+			}
+		}
+		if !feasible {
+			continue
+		}
 		x, y := a, b
 		var nz []*Poly
 		for i, at := range atoms {
